@@ -256,7 +256,7 @@ class MNTM(ntm.NTM):
             possible_transitions = self._get_transition(
                 current_config.state, current_config.tapes
             )
-            if possible_transitions is None:
+            if not possible_transitions:
                 if current_config.state in self.final_states:
                     return {
                         MTMConfiguration(current_config.state, current_config.tapes)
